@@ -55,6 +55,7 @@ func genC06(t *tape.Tape, tier string) any {
 	tok := 0
 	var hosts []string
 	pacLines := []string{}
+	altUsed := false
 	for ci := 0; ci < nConns; ci++ {
 		var pc polConn
 		n := 1 + t.Pick(3, 4, 2, 1)
@@ -108,6 +109,10 @@ func genC06(t *tape.Tape, tier string) any {
 				kw := map[string]string{"http": "PROXY", "https": "HTTPS", "socks5": "SOCKS5"}[kind]
 				if t.Chance(1, 5) {
 					pacLines = append(pacLines, fmt.Sprintf("  if (host == %q) return \"DIRECT\";", host))
+				} else if kind == "http" && t.Chance(1, 3) {
+					// a second proxy on the same host name, another port: it has its own table entry or none
+					pacLines = append(pacLines, fmt.Sprintf("  if (host == %q) return %q;", host, kw+" proxy-a.example:9080"))
+					altUsed = true
 				} else {
 					pacLines = append(pacLines, fmt.Sprintf("  if (host == %q) return %q;", host, kw+" "+proxyHosts[kind]))
 				}
@@ -118,6 +123,9 @@ func genC06(t *tape.Tape, tier string) any {
 			pacLines = append(pacLines, fmt.Sprintf("  if (host == %q) return \"DIRECT\";", h))
 		}
 		c.Conns = append(c.Conns, pc)
+	}
+	if altUsed && t.Chance(1, 2) {
+		c.Creds = append(c.Creds, fmt.Sprintf("altuser:%s@proxy-a.example:9080", sec("alt")))
 	}
 	if mode == 2 {
 		c.PAC = "function FindProxyForURL(url, host) {\n" + strings.Join(pacLines, "\n") + "\n  return \"DIRECT\";\n}\n"
